@@ -38,3 +38,20 @@ Theorem C19_dopri5_one_call_per_step :
     end.
 Proof. exact @step_trace. Qed.
 Print Assumptions C19_dopri5_one_call_per_step.
+
+(* ---------------- DOP853: the same protocol (proofs/Dop853Protocol.v) ---------------- *)
+Require IVP.model.Dop853 IVP.proofs.Dop853Protocol.
+
+Theorem C19_dop853_protocol :
+  forall (F : Type) (O : Ops F) (H : Type) (P : Dop853.params) f xend posneg hmax
+         (cb : H -> F -> F -> list F -> option (list F * F * F) -> H * flag F * list F) kern fuel s r,
+    Dop853Protocol.trace_ok (Dop853.s_x s) (snd (Dop853.s_cb s)) ->
+    Dop853Protocol.no_interrupt (snd (Dop853.s_cb s)) ->
+    Dop853.loop O P f xend posneg hmax (Dop853Protocol.rec_cb cb) kern fuel s = Some r ->
+    Dop853Protocol.contiguous (snd (Dop853.r_cb r)) /\
+    (match snd (Dop853.r_cb r) with c :: _ => Dop853Protocol.c_x c = Dop853.r_x r | nil => False end) /\
+    (Dop853.r_status r = UserInterrupt <->
+       match snd (Dop853.r_cb r) with c :: _ => Dop853Protocol.c_flag c = Interrupt | nil => False end) /\
+    (match snd (Dop853.r_cb r) with c :: rest => Dop853Protocol.no_interrupt rest | nil => True end).
+Proof. exact @Dop853Protocol.loop_trace. Qed.
+Print Assumptions C19_dop853_protocol.
